@@ -106,6 +106,15 @@ HistStep(h) ==
    ELSE [h EXCEPT !.results = Append(@, h.cur.store), !.k = @ + 1,
                   !.cur = IF h.k + 1 <= Len(h.cons) THEN StartCon(h.cons[h.k + 1], h.cls) ELSE @]
 
+\* ---- the command line as a sequence of option occurrences [opt, val].  For the kinds whose command-line form
+\* replaces, an option given several times takes its last value.  A value-less colour switch (`--color` without a
+\* value = its const, `--no-color`, `-C`) is one occurrence of the option "color" and nothing else: it consumes no
+\* neighbour and ends nothing, wherever it stands (first, between options, before a -D define, last).
+CmdOf(argv, opt) == LET S == {k \in DOMAIN argv : argv[k].opt = opt} IN
+                    IF S = {} THEN "absent" ELSE argv[MaxOf(S)].val
+InsertAt(argv, k, item) == SubSeq(argv, 1, k - 1) \o <<item>> \o SubSeq(argv, k, Len(argv))
+BareColor == [opt |-> "color", val |-> "const"]
+
 \* ---- the rule the property states
 Assigned(files) == {k \in DOMAIN files : files[k] # "absent"}
 Resolve(files, cmd) == IF cmd # "absent" THEN <<CTok(cmd)>>
